@@ -148,3 +148,45 @@ MUTANTS += [
     {"id": "C10-hit-benign-debug-assert", "prop": "C10", "benign": True,
      "edits": [(L, "            let child = &self.store[child_id.0].value;\n", "            debug_assert!(child_id.0 < self.store.len());\n            let child = &self.store[child_id.0].value;\n")]},
 ]
+
+# ---- CHILD-PAIRING: child number i is rendered with layout number i ----
+F = "src/view/flex.rs"
+_LOOP = ("    for (child, child_layout) in children.iter().zip(layout.children()) {\n        if child_layout.size().is_empty() {\n            continue;\n        }\n")
+_CONT = "        let child_layout = layout.children().next().ok_or(Error::InvalidLayout)?;\n        self.child.render(ctx, surf, child_layout)"
+_TAIL = ("            surf.erase(face);\n        }\n\n        child.view.render(ctx, surf.as_mut(), child_layout)?;\n    }\n    Ok(())\n}\n\npub trait FlexArray {")
+MUTANTS += [
+    # the seed's essence: empty layouts are dropped before the pairing, so later children get a sibling's layout
+    {"id": "C10-pairing-filter-layouts-before-zip", "prop": "C10", "expect": "CHILD-PAIRING/view::flex::flex_render/layout-side:filter",
+     "edits": [(F, _LOOP, "    let visible = layout.children().filter(|child_layout| !child_layout.size().is_empty());\n    for (child, child_layout) in children.iter().zip(visible) {\n")]},
+    {"id": "C10-pairing-skip-first-layout", "prop": "C10", "expect": "CHILD-PAIRING/view::flex::flex_render/layout-side:skip",
+     "edits": [(F, "children.iter().zip(layout.children()) {", "children.iter().zip(layout.children().skip(1)) {")]},
+    {"id": "C10-pairing-filter-children-before-zip", "prop": "C10", "expect": "CHILD-PAIRING/view::flex::flex_render/child-side:filter",
+     "edits": [(F, "children.iter().zip(layout.children()) {", "children.iter().filter(|child| child.flex.is_none()).zip(layout.children()) {")]},
+    {"id": "C10-pairing-reversed-layouts", "prop": "C10", "expect": "CHILD-PAIRING/view::flex::flex_render/layout-side",
+     "edits": [(F, "children.iter().zip(layout.children()) {", "children.iter().zip(layout.children().collect::<Vec<_>>().into_iter().rev()) {")]},
+    # cursor form that skips only the layout (the same mistake spelled as a loop)
+    {"id": "C10-pairing-cursor-skips-empty-layouts", "prop": "C10", "expect": "CHILD-PAIRING/view::flex::flex_render/lockstep",
+     "edits": [(F, _LOOP, "    let mut layouts = layout.children();\n    for child in children.iter() {\n        let Some(mut child_layout) = layouts.next() else { break };\n        while child_layout.size().is_empty() {\n            match layouts.next() {\n                Some(next_layout) => child_layout = next_layout,\n                None => return Ok(()),\n            }\n        }\n")]},
+    # cursor advanced only for children that are drawn
+    {"id": "C10-pairing-cursor-not-advanced-on-skip", "prop": "C10", "expect": "CHILD-PAIRING/view::flex::flex_render/lockstep",
+     "edits": [(F, _LOOP, "    let mut layouts = layout.children();\n    for child in children.iter() {\n        if child.flex.is_some() && child.face.is_none() {\n            continue;\n        }\n        let Some(child_layout) = layouts.next() else { break };\n        if child_layout.size().is_empty() {\n            continue;\n        }\n")]},
+    # the correct version of the refactoring the seed imitates: the *pair* is filtered
+    {"id": "C10-pairing-benign-filter-after-zip", "prop": "C10", "benign": True,
+     "edits": [(F, _LOOP, "    let visible = children\n        .iter()\n        .zip(layout.children())\n        .filter(|(_, child_layout)| !child_layout.size().is_empty());\n    for (child, child_layout) in visible {\n")]},
+    {"id": "C10-pairing-benign-zip-swapped", "prop": "C10", "benign": True,
+     "edits": [(F, "for (child, child_layout) in children.iter().zip(layout.children()) {", "for (child_layout, child) in layout.children().zip(children.iter()) {")]},
+    {"id": "C10-pairing-benign-lockstep-cursor", "prop": "C10", "benign": True,
+     "edits": [(F, _LOOP, "    let mut layouts = layout.children();\n    for child in children.iter() {\n        let Some(child_layout) = layouts.next() else { break };\n        if child_layout.size().is_empty() {\n            continue;\n        }\n")]},
+    {"id": "C10-pairing-benign-hoisted-sequences", "prop": "C10", "benign": True,
+     "edits": [(F, _LOOP, "    let child_layouts = layout.children();\n    let views = children.iter();\n    let pairs = views.zip(child_layouts).enumerate();\n    for (index, (child, child_layout)) in pairs {\n        debug_assert!(index < children.len());\n        if child_layout.size().is_empty() {\n            continue;\n        }\n")]},
+    {"id": "C10-pairing-benign-try-for-each", "prop": "C10", "benign": True,
+     "edits": [(F, _LOOP, "    children.iter().zip(layout.children()).try_for_each(|(child, child_layout)| {\n        if child_layout.size().is_empty() {\n            return Ok(());\n        }\n"),
+               (F, _TAIL, _TAIL.replace("child.view.render(ctx, surf.as_mut(), child_layout)?;\n    }\n    Ok(())\n}", "child.view.render(ctx, surf.as_mut(), child_layout)\n    })\n}"))]},
+    {"id": "C10-pairing-try-for-each-filtered-layouts", "prop": "C10", "expect": "CHILD-PAIRING/view::flex::flex_render",
+     "edits": [(F, _LOOP, "    children.iter().zip(layout.children().filter(|l| !l.size().is_empty())).try_for_each(|(child, child_layout)| {\n"),
+               (F, _TAIL, _TAIL.replace("child.view.render(ctx, surf.as_mut(), child_layout)?;\n    }\n    Ok(())\n}", "child.view.render(ctx, surf.as_mut(), child_layout)\n    })\n}"))]},
+    {"id": "C10-pairing-benign-container-hoisted-cursor", "prop": "C10", "benign": True,
+     "edits": [("src/view/container.rs", _CONT, "        debug_assert!(layout.children().next().is_some());\n        let mut child_layouts = layout.children();\n        let child_layout = match child_layouts.next() {\n            Some(child_layout) => child_layout,\n            None => return Err(Error::InvalidLayout),\n        };\n        self.child.render(ctx, surf, child_layout)")]},
+    {"id": "C10-pairing-container-second-layout", "prop": "C10", "expect": "Container<V>asview::View>::render/layout-side:skip",
+     "edits": [("src/view/container.rs", _CONT, _CONT.replace("layout.children().next()", "layout.children().skip(1).next()"))]},
+]
